@@ -209,4 +209,65 @@ example : 1 ∈ [0, 1] :=
 example : (rdRunModel ztD 100).open_ = [] ∧ solEqOn ztD.graph.nodes (rdRunModel ztD 100).A ztIN = true
     ∧ solEqOn ztD.graph.nodes (rdRunModel ztD 100).B ztOUT = true := by decide
 
+/-! ## The pinned tree, second deviation: a value written by another activation
+
+    def f(a, b, c):
+        def g():
+            nonlocal x
+            x = tr(1, 5)
+        g()
+        if d():
+            x = x + 1
+        return tr(0, x)
+
+(REAL data; variables 0 c, 1 a, 2 b, 3 g, 4 x, 5 tr, 6 d; nodes 2 args, 6 `def g`, 15 `g()`, 19 `d()` (entry of the `if`, statement 18),
+21 `x = x + 1`, 26 return).  `rd_sound` models writes as steps of the walk; the closure's write is not one, and the analysis has no
+definition for it: on entering the `if`, the local `x` is bound and `DEFINED_VARS_IN` does not contain it (control_flow then emits
+`x = Undefined('x')` over the live value: 6 natively, UnboundLocalError converted). -/
+
+def fwD : CfgData where
+  fnId := 1
+  graph := { nodes := [2, 6, 15, 19, 21, 26], edges := [(2, 6), (6, 15), (15, 19), (19, 21), (19, 26), (21, 26)] }
+  entry := 2
+  exits := [26]
+  info := [
+    { id := 2, scope := some { read := [], modified := [], deleted := [], bound := [0, 1, 2], globals := [], nonlocals := [], params := [0, 1, 2], annotations := [] }, isForIter := false, forTargets := [], isFnDef := false, fnsIn := some [] },
+    { id := 6, scope := some { read := [], modified := [3], deleted := [], bound := [3], globals := [], nonlocals := [], params := [], annotations := [] }, isForIter := false, forTargets := [], isFnDef := true, fnsIn := some [] },
+    { id := 15, scope := some { read := [3], modified := [], deleted := [], bound := [], globals := [], nonlocals := [], params := [], annotations := [] }, isForIter := false, forTargets := [], isFnDef := false, fnsIn := some [6] },
+    { id := 19, scope := some { read := [6], modified := [], deleted := [], bound := [], globals := [], nonlocals := [], params := [], annotations := [] }, isForIter := false, forTargets := [], isFnDef := false, fnsIn := some [6] },
+    { id := 21, scope := some { read := [4], modified := [4], deleted := [], bound := [4], globals := [], nonlocals := [], params := [], annotations := [] }, isForIter := false, forTargets := [], isFnDef := false, fnsIn := some [6] },
+    { id := 26, scope := some { read := [4, 5], modified := [], deleted := [], bound := [], globals := [], nonlocals := [], params := [], annotations := [] }, isForIter := false, forTargets := [], isFnDef := false, fnsIn := some [6] }]
+  fns := [
+    { id := 1, parent := 0, isLambda := false, read := [3, 4, 5, 6], bound := [0, 1, 2, 3, 4], nonlocals := [] },
+    { id := 6, parent := 1, isLambda := false, read := [4, 5], bound := [4], nonlocals := [4] }]
+def fwV : List Nat := [2, 6, 15, 19, 21, 26]
+def fwIN : St Def := solAt [(2, []), (6, [(0, 2), (1, 2), (2, 2)]), (15, [(0, 2), (1, 2), (2, 2), (3, 6)]), (19, [(0, 2), (1, 2), (2, 2), (3, 6)]), (21, [(0, 2), (1, 2), (2, 2), (3, 6)]), (26, [(0, 2), (1, 2), (2, 2), (3, 6), (4, 21)])]
+def fwOUT : St Def := solAt [(2, [(0, 2), (1, 2), (2, 2)]), (6, [(0, 2), (1, 2), (2, 2), (3, 6)]), (15, [(0, 2), (1, 2), (2, 2), (3, 6)]), (19, [(0, 2), (1, 2), (2, 2), (3, 6)]), (21, [(0, 2), (1, 2), (2, 2), (3, 6), (4, 21)]), (26, [(0, 2), (1, 2), (2, 2), (3, 6), (4, 21)])]
+/-- f(1, 2, 3) with d() true: during step 2 (`g()`) the closure binds x (variable 4) -/
+def fwT : Trace :=
+  [{ node := 2, reads := [], writes := [0, 1, 2], dels := [], fwrites := [], creads := [] },
+   { node := 6, reads := [], writes := [3], dels := [], fwrites := [], creads := [] },
+   { node := 15, reads := [3], writes := [], dels := [], fwrites := [4], creads := [(6, 5)] },
+   { node := 19, reads := [6], writes := [], dels := [], fwrites := [], creads := [] },
+   { node := 21, reads := [4], writes := [4], dels := [], fwrites := [], creads := [] },
+   { node := 26, reads := [4, 5], writes := [], dels := [], fwrites := [], creads := [] }]
+def fwIf : StmtData := { id := 18, next := [26], prev := [15], inside := [19, 21], entry := some 19, liveOut := some [4, 5], liveIn := some [4, 5, 6], definedIn := some [0, 1, 2, 3] }
+
+/-- The defined-on-entry clause with "bound" read as Python does (the last touch is a binding, by this activation *or another one*)
+is false of the pinned tree: all checkers accept the real data, the run is a path, `x` is bound when the `if` is entered (step 3) —
+and `x ∉ DEFINED_VARS_IN`; nor is there any definition of `x` in `in_` of the node that then reads it (step 4). -/
+theorem C06_defined_in_full_false :
+    ¬ (∀ (D : CfgData) (V : List Nat) (IN OUT : St Def) (T : Trace) (s : StmtData) (dv : List Nat) (k v : Nat),
+        isFix D.graph.edges V (rdFlow D) IN OUT = true → stmtPrevComplete D.graph.edges s = true →
+        definedInCovers OUT s dv = true → definedInTight OUT s dv = true → isPathB D.graph.edges V T = true → rdGenOK D T = true →
+        0 < k → k < T.length → T.nodeAt k ∈ s.inside → T.nodeAt (k - 1) ∉ s.inside →
+        (lastTouchIsForeign T k v = true ∨ ∃ j, isLastWriterB T j k v = true) → v ∈ dv) := by
+  intro h
+  have := h fwD fwV fwIN fwOUT fwT fwIf [0, 1, 2, 3] 3 4 (by decide) (by decide) (by decide) (by decide) (by decide) (by decide)
+    (by decide) (by decide) (by decide) (by decide) (Or.inl (by decide))
+  revert this
+  decide
+
+example : lastTouchIsForeign fwT 4 4 = true ∧ (fwIN 21).filter (fun d => d.1 == 4) = [] := by decide
+
 end Malt.Analysis.C06
